@@ -41,10 +41,12 @@ ASSUMPTIONS = [
     'and never partial; at least one column reaches the top of the top layer (otherwise the grid does not '
     'contain the top layer thickness and nothing can invert it)',
     'boundary blocks (volume 0 or 1e50) are appended after all geometric blocks, attached by one connection to the '
-    'top (direction 3), bottom (3) or a side (1, 2) of the grid, with or without a centre; a boundary block with '
-    'a centre BELOW the grid is only explored with origin_block given (documented: "specify it manually if the '
-    'algorithm does not detect it correctly"); a boundary block on top of the grid only with atmosphere type 2 '
-    '(next to an atmosphere block it is indistinguishable from it)',
+    'top (direction 3), bottom (3; one block under the origin column, or one under every column) or a side (1, 2) of '
+    'the grid, with or without a centre (a centre below the grid included: the origin block must still be found); a '
+    'boundary block on top of the grid only with atmosphere type 2 (next to an atmosphere block it is '
+    'indistinguishable from it)',
+    'data-file routes: mesh inside the data file, in a separate text MESH file, in binary MESHA/MESHB files; the binary '
+    'format returns zeros for an absent centre, which is accepted as the format, not compared',
     'after the data-file path quantities are compared to the tolerances that follow from the measured '
     'rounding of the file (block centres 4 digits, volumes/distances/areas 5 digits), in memory to 1e-7 relative '
     'input perturbation',
@@ -81,12 +83,12 @@ LEVEL_NOTE = ('Spacings come from three patterns and their single-direction devi
               'propagated rounding of 4-digit block centres.')
 
 BASE_DX, BASE_DY, BASE_DZ = 10.0, 7.0, 2.0
-SHIFTS = [(0.0, 0.0, 0.0), (100.0, 200.0, -50.0)]
+SHIFTS = [(0.0, 0.0, 0.0), (100.0, 200.0, -50.0), (100.0, 200.0, 500.0)]     # the last: a grid wholly above z = 0
 ANGLES = {'quick': [0, 30, 135, -45], 'thorough': [0, 30, 45, 90, 135, 180, -45, 200, 1e-06, 180.000001]}
 DEV_ANGLES = {'quick': [0, 30], 'thorough': [0, 30]}
 SP_DEVS = [['i', 'i', 'i'], ['t', 't', 't'], ['i', 'u', 'u'], ['u', 'i', 'u'], ['u', 'u', 'i'],
            ['t', 'u', 'u'], ['u', 't', 'u'], ['u', 'u', 't']]
-BND_KINDS = [[a, v, c] for a in ('top3', 'bot3', 'side1', 'side2') for v in ('zero', 'huge') for c in ('n', 'c')]
+BND_KINDS = [[a, v, c] for a in ('top3', 'bot3', 'botall', 'side1', 'side2') for v in ('zero', 'huge') for c in ('n', 'c')]
 BND_NAMES = ['bdy 1', 'bdy 2', 'bdy 3', 'zzz99', 'AAA 1', '  z 9', 'b   7', 'Q0001']
 BIG = (10, 12, 14)
 TOP, DOWN, MID, ABOVE = [0, 4], [1, 4], [0, 2], [0, 6]
@@ -160,15 +162,12 @@ def with_(case, **kw):
 
 
 def normalise(case):
-    """Contract exclusions: a boundary block with a centre below the grid needs the origin block given;
-    a boundary block on top of a column that also has an atmosphere block above it cannot be told from the
+    """Contract exclusion: a boundary block on top of a column that also has an atmosphere block above it cannot be told from the
     atmosphere block (both are non-geometric blocks above the top block) - not in the space (None)."""
     if case['bnd'] and case['bnd'][0] == 'top3' and case['atm'] != 2:
         return None
     if 'avol' not in case or (case['avol'] != 'd' and case['atm'] == 2):
         case = with_(case, avol='d')            # no atmosphere blocks: the atmosphere volume is not in the grid
-    if case['bnd'] and case['bnd'][0] == 'bot3' and case['bnd'][2] == 'c' and case['ob'] == 'auto':
-        case = with_(case, ob='name')
     return case
 
 
@@ -255,6 +254,15 @@ def unit_cases(unit, tier):
             c = emit(with_(base, shift=1, file=True, cs=a, cr=b))
             if c:
                 yield c
+    # E: mesh routes x vertical position x basal boundary blocks with centres, crossed (what a route does to an absent
+    # centre, and which block is lowest, only interact)
+    for sh in (0, 1, 2):
+        for f in (False, True, 'mesh', 'binary'):
+            for bnd in (None, ['botall', 'zero', 'c'], ['botall', 'huge', 'c'], ['bot3', 'huge', 'c'], ['botall', 'huge', 'n']):
+                for surf in ([TOP] * (nx * ny), stair(nx, ny, nz)):
+                    c = emit(with_(base, shift=sh, file=f, bnd=bnd, surf=surf))
+                    if c:
+                        yield c
     # D: a basal boundary block under a column that is ONE block high, next to that block's atmosphere connection.
     # Which of the two direction-3 neighbours the library meets first depends on the iteration order of a set
     # of name tuples; the boundary block's name is a dimension so that both orders occur under the fixed hash seed.
@@ -394,6 +402,18 @@ def add_boundary(case, geo, grid, m):
         off = np.array([0.0, 0.0, m.dz[0]])
     elif attach == 'bot3':
         other, d, off = blk(nz - 1, 0, 0), 3, np.array([0.0, 0.0, -m.dz[-1]])
+    elif attach == 'botall':
+        # one boundary block under EVERY bottom block (a basal boundary condition), centres 20 m below the grid
+        names = []
+        for j in range(ny):
+            for i in range(nx):
+                other = blk(nz - 1, i, j)
+                centre = None if cen == 'n' else other.centre + np.array([0.0, 0.0, -0.5 * m.dz[-1] - 20.0])
+                b = t2block('bd%3d' % (j * nx + i + 1), 0.0 if vol == 'zero' else 1.e50, grid.rocktypelist[0], centre=centre)
+                grid.add_block(b)
+                grid.add_connection(t2connection([other, b], 3, [1.0, 1.e-9], 10.0, 1.0))
+                names.append(b.name)
+        return names
     elif attach == 'side1':
         other, d, off = blk(nz - 1, nx - 1, 0), 1, e1 * (0.5 * m.dx[-1] + 1.0)
     else:
@@ -407,23 +427,43 @@ def add_boundary(case, geo, grid, m):
     return b.name
 
 
-def through_file(grid):
+def through_file(grid, mode=True):
+    """mode True: mesh inside the data file; 'mesh': in a separate text MESH file; 'binary': in binary MESHA/MESHB
+    files (which hold doubles, and zeros for a centre that is absent)."""
     from t2data import t2data
     dat = t2data()
     dat.grid = grid
-    name = os.path.join(core.scratch(), 'c18.dat')
-    dat.write(name)
-    back = t2data(name)
+    d = core.scratch()
+    name = os.path.join(d, 'c18.dat')
+    for f in ('c18.dat', 'c18.mesh', 'c18.mesha', 'c18.meshb'):
+        if os.path.exists(os.path.join(d, f)):
+            os.remove(os.path.join(d, f))
+    if mode == 'binary':
+        mesh = [os.path.join(d, 'c18.mesha'), os.path.join(d, 'c18.meshb')]
+    elif mode == 'mesh':
+        mesh = os.path.join(d, 'c18.mesh')
+    else:
+        mesh = ''
+    if mesh:
+        dat.write(name, meshfilename=mesh)
+        back = t2data(name, meshfilename=mesh)
+    else:
+        dat.write(name)
+        back = t2data(name)
+    if back.grid.num_blocks != grid.num_blocks:
+        raise Fail('datafile', 'block-count', '%d blocks re-read as %d' % (grid.num_blocks, back.grid.num_blocks))
     return back.grid
 
 
-def measure_rounding(grid, grid_f):
+def measure_rounding(grid, grid_f, mode=True):
     """Largest rounding of block centres (absolute) and of volumes/distances/areas (relative) by the file."""
     dxy = dz = rel = 0.0
     for b in grid.blocklist:
         bf = grid_f.block.get(b.name)
         if bf is None:
             raise Fail('datafile', 'block-lost', 'block %r is not in the re-read grid' % b.name)
+        if mode == 'binary' and b.centre is None:
+            continue                    # the binary format has no way to say "no centre": zeros come back
         if (b.centre is None) != (bf.centre is None):
             raise Fail('datafile', 'centre-presence', 'block %r centre %r re-read as %r' % (b.name, b.centre, bf.centre))
         if b.centre is not None:
@@ -480,10 +520,12 @@ def evaluate(case):
             dxy, dz, rel = 1e-7 * scale, 1e-7 * scale, 1e-7
             if case['file']:
                 try:
-                    grid_f = through_file(grid)
+                    grid_f = through_file(grid, case['file'])
+                except Fail:
+                    raise
                 except Exception as e:
                     raise Fail('datafile', 'exception:' + type(e).__name__, 'writing/re-reading the grid raised %r' % e)
-                fx, fz, fr = measure_rounding(grid, grid_f)
+                fx, fz, fr = measure_rounding(grid, grid_f, case['file'])
                 dxy, dz, rel = dxy + fx, dz + fz, rel + fr
                 grid = grid_f
             kw = {'atmos_type': case['atm'], 'convention': case['cr']}
@@ -638,7 +680,8 @@ def shape_class(case):
     return 'nx,ny>=2'
 
 
-REVERT = [('file', lambda c, b: with_(c, file=False), lambda c: 'file' if c['file'] else None),
+REVERT = [('file', lambda c, b: with_(c, file=False),
+           lambda c: ('file' if c['file'] is True else 'file=%s' % c['file']) if c['file'] else None),
           ('bname', lambda c, b: with_(c, bname='bdy 1'),
            lambda c: 'boundary-name-order' if c['bnd'] and c.get('bname', 'bdy 1') != 'bdy 1' else None),
           ('bnd', lambda c, b: with_(c, bnd=None), lambda c: ('bnd=' + '/'.join(c['bnd'])) if c['bnd'] else None),
@@ -646,12 +689,12 @@ REVERT = [('file', lambda c, b: with_(c, file=False), lambda c: 'file' if c['fil
           ('rmi', lambda c, b: with_(c, rmi=False), lambda c: 'remove_inactive' if c['rmi'] else None),
           ('avol', lambda c, b: with_(c, avol='d'),
            lambda c: 'atmosphere-volume=' + {'z': '0', 'h': '1e50'}[c['avol']] if c.get('avol', 'd') != 'd' else None),
-          ('ob', lambda c, b: with_(c, ob='auto'), lambda c: 'origin_block-given' if c['ob'] == 'name' and not (c['bnd'] and c['bnd'][0] == 'bot3' and c['bnd'][2] == 'c') else None),
+          ('ob', lambda c, b: with_(c, ob='auto'), lambda c: 'origin_block-given' if c['ob'] == 'name' else None),
           ('conv', lambda c, b: with_(c, cs=0, cr=0),
            lambda c: ('conv-differs' if c['cs'] != c['cr'] else 'conv=%d' % c['cs']) if (c['cs'], c['cr']) != (0, 0) else None),
           ('surf', lambda c, b: with_(c, surf=b['surf']), lambda c: 'surface' if any(s != TOP for s in c['surf']) else None),
           ('angle', lambda c, b: with_(c, angle=0), lambda c: 'angle=%r' % c['angle'] if c['angle'] != 0 else None),
-          ('shift', lambda c, b: with_(c, shift=0), lambda c: 'shifted' if c['shift'] else None),
+          ('shift', lambda c, b: with_(c, shift=0), lambda c: ('shifted' if c['shift'] == 1 else 'above-z0') if c['shift'] else None),
           ('sp', lambda c, b: with_(c, sp=['u', 'u', 'u']),
            lambda c: 'spacing=' + ''.join(c['sp']) if c['sp'] != ['u', 'u', 'u'] else None)]
 
